@@ -186,6 +186,10 @@ Delete ==
     /\ UNCHANGED <<kind, opts, widx, cs, cph, csub, checkDone, verified, status, nruns, fs0>>
 Return == /\ rpc = "return" /\ fs' = fs /\ Finish("1")
 
+\* sub-steps of compress_file before its rename (temporary file, chunks, header, check: module System) do not change
+\* any file this module tracks
+Stutter == UNCHANGED vars
+
 \* an interruption (exception, kill) after any step of a run
 Crash == /\ rpc \notin {"idle"} /\ fs' = fs /\ Finish("crashed")
 
